@@ -42,6 +42,9 @@ Range(f) == {f[i] : i \in DOMAIN f}
 Min(S) == CHOOSE x \in S : \A y \in S : x <= y
 Max(S) == CHOOSE x \in S : \A y \in S : x >= y
 Abs(x) == IF x < 0 THEN -x ELSE x
+\* TLC evaluates a function constructor lazily, once per APPLICATION; these two materialise the value (no meaning change)
+Force(f) == f @@ <<>>
+AsSeq(f) == <<>> \o f
 RECURSIVE SumF(_, _)            \* sum of f[x] over x in S
 SumF(f, S) == IF S = {} THEN 0 ELSE LET x == CHOOSE y \in S : TRUE IN f[x] + SumF(f, S \ {x})
 RECURSIVE GCD(_, _)
@@ -61,7 +64,7 @@ WeightOf(e, wp) == IF wp = "w" THEN e.w ELSE IF wp = "w2" THEN 4 - e.w ELSE 1
 Proj(label, type, wp) ==
     LET V == IF label = "" THEN 1..nn ELSE {v \in 1..nn : label \in lab[v]}
         keep == SelectSeq(edges, LAMBDA e : (type = "" \/ e.t = type) /\ e.s \in V /\ e.d \in V)
-    IN [V |-> V, E |-> [i \in DOMAIN keep |-> [s |-> keep[i].s, d |-> keep[i].d, w |-> WeightOf(keep[i], wp)]]]
+    IN [V |-> V, E |-> AsSeq([i \in DOMAIN keep |-> [s |-> keep[i].s, d |-> keep[i].d, w |-> WeightOf(keep[i], wp)]])]
 
 \* the undirected multigraph: every relationship usable in both directions
 Sym(g) == [V |-> g.V,
@@ -71,9 +74,9 @@ Copies(g, k) ==
     LET n == Cardinality(g.V)
         m == Len(g.E)
     IN [V |-> 1..(k * n),
-        E |-> [i \in 1..(k * m) |-> LET c == (i - 1) \div m
-                                        e == g.E[((i - 1) % m) + 1]
-                                    IN [s |-> c * n + e.s, d |-> c * n + e.d, w |-> e.w]]]
+        E |-> AsSeq([i \in 1..(k * m) |-> LET c == (i - 1) \div m
+                                              e == g.E[((i - 1) % m) + 1]
+                                          IN [s |-> c * n + e.s, d |-> c * n + e.d, w |-> e.w]])]
 
 Arc(g, u, v) == \E i \in DOMAIN g.E : g.E[i].s = u /\ g.E[i].d = v
 Adj(g, u, v) == Arc(g, u, v) \/ Arc(g, v, u)
@@ -101,12 +104,14 @@ Cost(g, metric, p) == IF metric = "hops" THEN HopCost(p) ELSE WalkCost(g, p)
 OptCost(g, metric, s, t) == Min({Cost(g, metric, p) : p \in Paths(g, s, t)})
 
 \* C26 "BFS and Dijkstra return a real path of optimal cost (or none when unreachable)"
-PathResultOK(g, metric, s, t, found, cost, path) ==
-    IF Paths(g, s, t) = {} THEN ~found
+\* P = Paths(g, s, t), passed in so that a caller can enumerate the simple paths of a source once
+PathResultOKIn(g, P, metric, s, t, found, cost, path) ==
+    IF P = {} THEN ~found
     ELSE /\ found
          /\ IsWalk(g, path) /\ path[1] = s /\ path[Len(path)] = t
          /\ Cost(g, metric, path) = cost
-         /\ cost = OptCost(g, metric, s, t)
+         /\ cost = Min({Cost(g, metric, p) : p \in P})
+PathResultOK(g, metric, s, t, found, cost, path) == PathResultOKIn(g, Paths(g, s, t), metric, s, t, found, cost, path)
 \* bfs_all_shortest_paths: exactly the minimum-hop paths (as a set)
 AllShortest(g, s, t) == LET P == Paths(g, s, t) IN
                         IF P = {} THEN {} ELSE {p \in P : HopCost(p) = Min({HopCost(q) : q \in P})}
@@ -117,7 +122,7 @@ SccClass(g, u) == {v \in Reach(g, u) : u \in Reach(g, v)}
 WccClass(g, u) == Reach(Sym(g), u)
 \* a labelling (nodes[i] has component id comp[i]) is the true partition
 PartitionOK(g, nodes, comp, kind) ==
-    LET cls == [u \in g.V |-> IF kind = "scc" THEN SccClass(g, u) ELSE WccClass(g, u)] IN
+    LET cls == Force([u \in g.V |-> IF kind = "scc" THEN SccClass(g, u) ELSE WccClass(g, u)]) IN
     /\ Len(nodes) = Cardinality(g.V) /\ Range(nodes) = g.V /\ Len(comp) = Len(nodes)
     /\ \A i, j \in DOMAIN nodes : (comp[i] = comp[j]) <=> (nodes[j] \in cls[nodes[i]])
 \* the component-id -> members map lists exactly the classes
@@ -159,7 +164,7 @@ MstResultOK(g, start, total, res) ==
              /\ \E i \in DOMAIN g.E : {g.E[i].s, g.E[i].d} = pair(res[k]) /\ g.E[i].w = res[k].w   \* a real relationship
        /\ \A a, b \in DOMAIN res : a # b => pair(res[a]) # pair(res[b])
        \* the chosen pairs connect the component (|C|-1 connecting edges = a spanning tree)
-       /\ LET tg == [V |-> C, E |-> [k \in DOMAIN res |-> [s |-> res[k].u, d |-> res[k].v, w |-> res[k].w]]]
+       /\ LET tg == [V |-> C, E |-> AsSeq([k \in DOMAIN res |-> [s |-> res[k].u, d |-> res[k].v, w |-> res[k].w]])]
           IN (\A k \in DOMAIN res : pair(res[k]) \subseteq C) /\ Reach(Sym(tg), start) = C
        /\ SumF([k \in DOMAIN res |-> res[k].w], DOMAIN res) = total
        /\ total = MstWeight(g, start)
@@ -172,7 +177,7 @@ KruskalRun(g, todo, comp, acc) ==
              a == comp[g.E[i].s]
              b == comp[g.E[i].d]
          IN IF a = b THEN KruskalRun(g, todo \ {i}, comp, acc)
-            ELSE KruskalRun(g, todo \ {i}, [v \in DOMAIN comp |-> IF comp[v] = b THEN a ELSE comp[v]], acc + g.E[i].w)
+            ELSE KruskalRun(g, todo \ {i}, Force([v \in DOMAIN comp |-> IF comp[v] = b THEN a ELSE comp[v]]), acc + g.E[i].w)
 Kruskal(g, start) == LET C == WccClass(g, start)
                      IN KruskalRun(g, {i \in DOMAIN g.E : g.E[i].s \in C}, [v \in g.V |-> v], 0)
 
@@ -213,16 +218,20 @@ RatOK(obs, q) == Abs(obs * q[2] - q[1] * Mega) <= q[2]
 (* directed graphs; parallel relationships and self-loops vote per end);     *)
 (* a node without relationships keeps its label.                             *)
 CdlpStep(g, L) ==
-    [v \in g.V |->
+    Force([v \in g.V |->
         LET votes == [i \in OutIdx(g, v) |-> L[g.E[i].d]]
             votesIn == [i \in InIdx(g, v) |-> L[g.E[i].s]]
             ls == Range(votes) \cup Range(votesIn)
             cnt(x) == Cardinality({i \in OutIdx(g, v) : votes[i] = x}) + Cardinality({i \in InIdx(g, v) : votesIn[i] = x})
         IN IF ls = {} THEN L[v]
-           ELSE LET mx == Max({cnt(x) : x \in ls}) IN Min({x \in ls : cnt(x) = mx})]
+           ELSE LET mx == Max({cnt(x) : x \in ls}) IN Min({x \in ls : cnt(x) = mx})])
 RECURSIVE CdlpIter(_, _, _)
 CdlpIter(g, L, k) == IF k = 0 THEN L ELSE CdlpIter(g, CdlpStep(g, L), k - 1)
-Cdlp(g, k) == CdlpIter(g, [v \in g.V |-> v], k)
+\* <<L0, L1, ..., Lk>>
+RECURSIVE CdlpTraceFrom(_, _, _)
+CdlpTraceFrom(g, tr, k) == IF k = 0 THEN tr ELSE CdlpTraceFrom(g, Append(tr, CdlpStep(g, tr[Len(tr)])), k - 1)
+CdlpTrace(g, k) == CdlpTraceFrom(g, <<Force([v \in g.V |-> v])>>, k)
+Cdlp(g, k) == CdlpIter(g, Force([v \in g.V |-> v]), k)
 
 -----------------------------------------------------------------------------
 (* PageRank (LDBC Graphalytics): PR_0(v) = 1/n,                              *)
@@ -236,19 +245,19 @@ Cdlp(g, k) == CdlpIter(g, [v \in g.V |-> v], k)
 (* degrees and the iteration count small (overflow is a TLC error, never a   *)
 (* silent wrong answer).                                                     *)
 OutDeg(g, u) == Cardinality(OutIdx(g, u))
-PRInit(g) == [num |-> [v \in g.V |-> 1], D |-> Cardinality(g.V)]
+PRInit(g) == [num |-> Force([v \in g.V |-> 1]), D |-> Cardinality(g.V)]
 PRReduce(st) == LET c == GcdSet(Range(st.num) \cup {st.D})
-                IN IF c <= 1 THEN st ELSE [num |-> [v \in DOMAIN st.num |-> st.num[v] \div c], D |-> st.D \div c]
+                IN IF c <= 1 THEN st ELSE [num |-> Force([v \in DOMAIN st.num |-> st.num[v] \div c]), D |-> st.D \div c]
 \* unreduced successor: denominator dd * n * L * D
 PRStepRaw(g, c, st) ==
     LET n == Cardinality(g.V)
         L == LcmSet({OutDeg(g, u) : u \in g.V} \ {0})
         dangSet == {u \in g.V : OutDeg(g, u) = 0}
         dang == IF c.dang THEN SumF(st.num, dangSet) ELSE 0
-    IN [num |-> [v \in g.V |->
+    IN [num |-> Force([v \in g.V |->
                     (c.dd - c.dn) * L * st.D
                     + c.dn * (SumF([i \in InIdx(g, v) |-> st.num[g.E[i].s] * n * (L \div OutDeg(g, g.E[i].s))], InIdx(g, v))
-                              + dang * L)],
+                              + dang * L)]),
         D |-> c.dd * n * L * st.D,
         k |-> c.dd * n * L]
 RECURSIVE PRRun(_, _, _, _)
